@@ -23,6 +23,7 @@ from mc import common
 from mc.common import vsc, Script, SRandState, explore
 
 PID = "C16"
+LEVEL = "fault_enumeration"
 
 
 class Boom(Exception):
